@@ -5,6 +5,7 @@ pub mod c02;
 pub mod c03;
 pub mod c05;
 pub mod c08;
+pub mod c13;
 pub mod c15;
 
 pub fn property(id: &str) -> Option<Property> {
@@ -14,6 +15,7 @@ pub fn property(id: &str) -> Option<Property> {
         "C03" => Some(c03::property()),
         "C05" => Some(c05::property()),
         "C08" => Some(c08::property()),
+        "C13" => Some(c13::property()),
         "C15" => Some(c15::property()),
         _ => None,
     }
